@@ -676,6 +676,62 @@ func TestVerifSendBatch(t *testing.T) {
 			}
 		}
 	}
+	// ---- the connection of a server died while it was idle: the client notices when the batch is handed to it. Every call
+	// handed to the dead connection is answered at once with the connection-level error (and retried on a new connection):
+	// the batch returns, complete. (Several runs: what a dead connection does with a batch must not depend on chance.)
+	for rep2 := 0; rep2 < 12; rep2++ {
+		name := fmt.Sprintf("connection-died-while-idle/%d", rep2)
+		var kinds []string
+		returned := false
+		verifsim.Bubble(t, func(t *testing.T) {
+			tr := &verifsim.Trace{}
+			cl := verifsim.NewCluster(tr)
+			cl.AddServer("ms:1")
+			cl.AddServer("s1")
+			cl.AddServer("s2")
+			cl.CreateTable("t", [][]byte{[]byte("m")}, []string{"s1", "s2"})
+			c := newSimClient(cl, RpcQueueSize(2+rep2%4), FlushInterval(time.Millisecond))
+			for _, k := range []string{"a0", "n0"} {
+				g, _ := hrpc.NewGet(context.Background(), []byte("t"), []byte(k))
+				c.Get(g)
+			}
+			synctest.Wait()
+			cl.ResetConns("s1")
+			time.Sleep(10 * time.Millisecond)
+			synctest.Wait()
+			vals := map[string]map[string][]byte{"f": {"q": []byte("v")}}
+			var batch []hrpc.Call
+			for _, k := range []string{"a1", "n1", "a2", "a3"} {
+				p, _ := hrpc.NewPut(context.Background(), []byte("t"), []byte(k), vals)
+				batch = append(batch, p)
+			}
+			ctx, cancel := context.WithCancel(context.Background())
+			done := make(chan struct{})
+			var res []hrpc.RPCResult
+			go func() { res, _ = c.SendBatch(ctx, batch); close(done) }()
+			time.Sleep(3 * time.Minute)
+			synctest.Wait()
+			select {
+			case <-done:
+				returned = true
+				for _, r := range res {
+					kinds = append(kinds, sbKind(r))
+				}
+			default:
+			}
+			cancel()
+			time.Sleep(time.Second)
+			c.Close()
+			time.Sleep(time.Minute)
+			synctest.Wait()
+		})
+		ran++
+		if !returned {
+			rep.bad("batch-never-returns", "%s: SendBatch has not returned 3 virtual minutes after being handed to a connection that had died while idle", name)
+		} else if fmt.Sprint(kinds) != "[ok ok ok ok]" {
+			rep.bad("batch-results-differ", "%s: SendBatch returned %v; every call succeeds after the connection is replaced", name, kinds)
+		}
+	}
 	rep.Scenarios = ran
 	rep.Distinct = ran
 	rep.Extra["scripts_available"] = len(scripts)
